@@ -254,6 +254,8 @@ def mk_body(b):
     if b.get('withdrawals'):
         from pycardano.transaction import Withdrawals
         kw['withdraws'] = Withdrawals({H(a): q for a, q in b['withdrawals']})
+    if b.get('update'):
+        kw['update'] = [{H(g): {k: v for k, v in prm} for g, prm in b['update']['props']}, b['update']['epoch']]
     inputs = ins if b.get('inputs_as_list') else OrderedSet(ins, use_tag=not b.get('no_tag'))
     return TransactionBody(inputs=inputs, outputs=[mk_output(o) for o in b['outputs']], fee=b['fee'], **kw)
 
